@@ -217,6 +217,10 @@ func (s *StructType) IsValidExpression(exp Exp, pipeline *Pipeline, ast *Ast) er
 	case *NullExp:
 		return nil
 	case *MapExp:
+		// A struct value may also be written with map literal syntax.
+		// Either way it is a struct from here on, so that a projection
+		// through it selects the field rather than mapping over the values.
+		exp.Kind = KindStruct
 		var errs ErrorList
 		for _, member := range s.Members {
 			if v, ok := exp.Value[member.Id]; !ok {
